@@ -37,7 +37,7 @@ var scenarios = map[string]scenario{
 	"d23-renew-during-migration": {run: scenarioD23},
 	"d24-renew-after-revoked-grant": {run: scenarioD24},
 	// scripted life cycles that combine steps the random generators rarely line up (no finding attached)
-	"flow-debt-claim":     {run: flowDebtClaim},
+	"flow-debt-claim":     {run: flowDebtClaim, genesis: func(g *GenesisSpec) { g.NodeParams.Baseline = sdk.NewInt64Coin(Denom, 1); g.NodeParams.BlockReward = sdk.NewInt64Coin(Denom, 1000) }},
 	"flow-renew2-migrate": {run: flowRenew2Migrate},
 	"flow-fault-not-held": {run: flowFaultNotHeld, genesis: func(g *GenesisSpec) { g.NodeParams.FishmenInfo = g.Accounts[10].Bech() }},
 	"flow-forged-owner":   {run: flowForgedOwner},
@@ -474,6 +474,20 @@ func flowFaultNotHeld(r *Recorder, accts []*Account) {
 	r.EndBlock()
 	r.BeginBlock()
 	report()
+	r.EndBlock()
+	// the accused providers declare recovery, the fishman confirms: the confirmation would clear the fault
+	// (on the real chain that transaction panics on an empty store key and is rejected)
+	r.BeginBlock()
+	for _, sh := range m.w.ctxShards() {
+		sp := m.w.acctByAddr(sh.Sp)
+		if sp == nil || sh.Status != 2 {
+			continue
+		}
+		own := &saotypes.Fault{DataId: dataA, OrderId: 1, ShardId: sh.Id, CommitId: dataA, Provider: sh.Sp, Reporter: sp.Bech()}
+		r.RecoverFaults(sp, sh.Sp, []*saotypes.Fault{own})
+		conf := &saotypes.Fault{DataId: dataA, OrderId: 1, ShardId: sh.Id, CommitId: dataA, Provider: sh.Sp, Reporter: fishman.Bech()}
+		r.RecoverFaults(fishman, sh.Sp, []*saotypes.Fault{conf})
+	}
 	r.EndBlock()
 }
 
